@@ -59,6 +59,19 @@ PROPS = {
                     "assumed std contracts: <[T]>::sort_unstable_by returns a rearrangement ordered by the comparator; <[u8; 32] as Ord>::cmp is byte-wise lexicographic (cross-checked by Kani c17_cmp_contract); Ordering::then"],
         "assumed": ["attacker-supplied epochs are < u64::MAX and the epoch list is shorter than usize::MAX (overflow guards)"],
     },
+    "C16": {
+        "verus": [("manager", [SM + "set", SM + "batch_set", SM + "commit_transaction", SM + "get", SM + "get_from_cache_only", SM + "batch_get", SM + "get_user_state",
+                               SM + "tic_toc", SM + "increment_metric", SM + "is_transaction_active"])],
+        "search": True,
+        "always_search": True,
+        "scope": "partial (ordering contract): on every path of the storage manager that fills the object cache - the three write paths (set, batch_set, transaction commit) and the "
+                 "three read-fill paths (get, batch_get, get_user_state) - a record enters the cache only if the database returned it from a read or accepted it in a write, so a write "
+                 "the database rejects never changes what a later read returns; reads prefer the pending transaction value. Expiry, eviction, flush and concurrent tasks (state behind "
+                 "&self, wall clock) are not decided.",
+        "trusted": ["TimedCache / Database / Transaction methods external; 'the database holds this record' is a knowledge token that only their postconditions hand out",
+                    "T6 single-task sequential semantics of the async functions"],
+        "assumed": [],
+    },
     "C15": {
         "verus": [("manager", [SM + "get_user_state", SM + "compare_db_and_transaction_records", SM + "commit_transaction", SM + "is_transaction_active",
                                SM + "tic_toc", SM + "increment_metric", "DbRecord.transaction_priority", SM + "get_user_state_versions",
